@@ -114,7 +114,7 @@ static void pbkdf2(void)
         }
     }
     /* long outputs: block index crossing 255/256 (8160..8224) and a larger count */
-    if (tier) for (int hm = 0; hm < 2; hm++) {
+    for (int hm = 0; hm < 2; hm++) {
         size_t ol = 8300; uint8_t *o = hx_buf(ol);
         if (hm) { ref_pbkdf2_hmac(pw, 9, salt, 7, 2, e, ol); ascon_pbkdf2_hmac(o, ol, pw, 9, salt, 7, 2); }
         else { ref_pbkdf2(pw, 9, salt, 7, 2, e, ol); ascon_pbkdf2(o, ol, pw, 9, salt, 7, 2); }
